@@ -177,7 +177,12 @@ func runBits(c *hlib.Ctx) {
 		ctr, rad := g.fp3(), math.Abs(g.f())
 		st = &stub3{}
 		model3d.TransformCollider(t, st).SphereCollision(ctr, rad)
-		c.Emit(fmt.Sprintf("c05 bits.fsphin3 %s %s %s", x.tokensHex(3), h3(ctr), hx(rad)), h3(st.sphC[0])+" "+hx(st.sphR[0]))
+		if len(st.sphC) > 0 {
+			c.Emit(fmt.Sprintf("c05 bits.fsphin3 %s %s %s", x.tokensHex(3), h3(ctr), hx(rad)), h3(st.sphC[0])+" "+hx(st.sphR[0]))
+		} else {
+			// answered without asking the wrapped collider: judged by the exact kinds (sphin3 / sphc3)
+			c.Stat("bits.fsphin3.not-asked", 1)
+		}
 		sd := &stubSDF3{v: g.f()}
 		p := g.fp3()
 		res := guardPanic(func() string {
@@ -238,6 +243,11 @@ func runPinchBits(c *hlib.Ctx) {
 			arr[axis] = hi + c.Rng.Float64()
 		case 2:
 			arr[axis] = []float64{lo, hi, (lo + hi) / 2}[c.Rng.Intn(3)]
+		case 3:
+			// near the centre of the range, at every scale down to the rounding of the centre itself
+			e := -1 - c.Rng.Intn(48)
+			arr[axis] = (lo+hi)/2 + g.sign()*(0.5+c.Rng.Float64()/2)*math.Ldexp((hi-lo)/2, e)
+			c.Stat(fmt.Sprintf("pinchbits.near-centre.2^-%d0s", -e/10), 1)
 		default:
 			arr[axis] = lo + c.Rng.Float64()*(hi-lo)
 		}
